@@ -198,6 +198,10 @@ func ValidateOutputDescriptors(descriptors []*OutputDescriptor) error {
 	allOutputDescriptorIDs := make(map[string]struct{})
 
 	for i := range descriptors {
+		if descriptors[i] == nil {
+			return fmt.Errorf("missing output descriptor at index %d", i)
+		}
+
 		if descriptors[i].ID == "" {
 			return fmt.Errorf("missing ID for output descriptor at index %d", i)
 		}
@@ -280,6 +284,11 @@ func validateOutputDescriptorDisplay(outputDescriptor *OutputDescriptor, outputD
 	}
 
 	for i := range outputDescriptor.Display.Properties {
+		if outputDescriptor.Display.Properties[i] == nil {
+			return fmt.Errorf("display property at index %d for output descriptor at index %d is missing",
+				i, outputDescriptorIndex)
+		}
+
 		err := validateDisplayMappingObject(&outputDescriptor.Display.Properties[i].DisplayMappingObject)
 		if err != nil {
 			return fmt.Errorf("display property at index %d for output descriptor at index %d is invalid: %w",
